@@ -84,7 +84,7 @@ class Kernel:
     def ev(self, kind, **payload):
         """Append an event to the run log; returns its sequence number."""
         s = self.next_seq()
-        if self.record_log:
+        if self.record_log and not self.killing:
             self.log.append((s, self.now, self.actor_name(), kind, payload))
         return s
 
